@@ -197,4 +197,64 @@ def scrollSpeed (hasSv : Bool) (bpms : List Tp) (svs : List Sv) (omin omax : Rat
     Option (List (Rat × Option Rat)) :=
   (refBpm bpms omax override).map fun ref => (speedFrame hasSv bpms svs omin omax).map (speedOf ref)
 
+/-! ### the chart as the routines see it: first / last object are `m.stack().offset.min()/max()` -/
+
+/-- what the three routines read from a map: the offsets of its note lists (hits and holds), its tempo list and -
+where the map class has one (`hasattr(m, "svs")`) - its SV list -/
+structure Chart where
+  hasSv : Bool
+  bpms : List Tp
+  svs : List Sv
+  notes : List Rat
+deriving Repr, DecidableEq, Inhabited
+
+/-- `m.stack().offset` : the offsets of every list in `m.objs` (note lists, tempo list, SV list if present) -/
+def Chart.stackOffsets (c : Chart) : List Rat :=
+  c.notes ++ c.bpms.map (·.time) ++ (if c.hasSv then c.svs.map (·.time) else [])
+
+def rmin (a b : Rat) : Rat := if a ≤ b then a else b
+def rmax (a b : Rat) : Rat := if a ≤ b then b else a
+
+/-- (`stack().offset.min()`, `stack().offset.max()`); `none` = a chart without any object (NaN in the code; never
+reached with a tempo point) -/
+def Chart.bounds (c : Chart) : Option (Rat × Rat) :=
+  match c.stackOffsets with
+  | [] => none
+  | a :: t => some (t.foldl rmin a, t.foldl rmax a)
+
+/-- `dominant_bpm(m)` -/
+def Chart.dominantBpm (c : Chart) : Option Rat := c.bounds.bind fun b => Analysis.dominantBpm c.bpms b.2
+/-- `sv_normalize(m, override_bpm)` -/
+def Chart.svNormalize (c : Chart) (override : Option Rat) : Option (List Sv) :=
+  c.bounds.bind fun b => Analysis.svNormalize c.bpms b.2 override
+/-- `scroll_speed(m, override_bpm)` -/
+def Chart.scrollSpeed (c : Chart) (override : Option Rat) : Option (List (Rat × Option Rat)) :=
+  c.bounds.bind fun b => Analysis.scrollSpeed c.hasSv c.bpms c.svs b.1 b.2 override
+
+/-! ### sessions: several calls on one chart object with edits in between -/
+
+inductive Call where
+  | dominant
+  | speed (override : Option Rat)
+  | normalize (override : Option Rat)
+deriving Repr, DecidableEq
+
+inductive Answer where
+  | bpm (v : Option Rat)
+  | speeds (rows : Option (List (Rat × Option Rat)))
+  | svs (rows : Option (List Sv))
+deriving Repr, DecidableEq
+
+/-- the routines are functions of the chart they are handed: nothing is kept between calls -/
+def Chart.answer (c : Chart) : Call → Answer
+  | .dominant => .bpm c.dominantBpm
+  | .speed ov => .speeds (c.scrollSpeed ov)
+  | .normalize ov => .svs (c.svNormalize ov)
+
+/-- a session: a call on the chart as it is, then an edit (any function of the chart), and so on. Each entry of
+the trace is (the chart at the time of the call, the call, its answer). -/
+def runSession (c : Chart) : List (Call × (Chart → Chart)) → List (Chart × Call × Answer)
+  | [] => []
+  | (q, e) :: rest => (c, q, c.answer q) :: runSession (e c) rest
+
 end Reamber.Analysis
